@@ -47,7 +47,7 @@ def gen_case(rng, k):
     stages = sorted(rng.choice([0, 0, 1, 2]) for _ in range(ncomp))
     if rng.random() < 0.5:
         stages = [s - stages[0] for s in stages]
-    nb = rng.choice([0, 1, 1, 2, 3])
+    nb = rng.choice([0, 1, 1, 2, 2, 3])
     ibind = [[b, rng.choice(['ref', 'output', 'output', 'copy'])] for b in rng.sample(BIND_NAMES, nb)]
     types = dict(ibind)
     binds = []
@@ -56,7 +56,7 @@ def gen_case(rng, k):
         binds.append([b, [s[1], s[0], rng.choice(['', '', '', 'f', 'g.txt'])]])
     loopb = []
     for b, _t in ibind:
-        if rng.random() < 0.6:
+        if rng.random() < 0.8:
             j = rng.randrange(ncomp)
             st = stages[j]
             if st == 0 and rng.random() < 0.5:
